@@ -47,6 +47,24 @@ theorem u64Add_of_fits {a b : Nat} (h : a + b < 18446744073709551616) : u64Add a
 theorem u64Sub_of_le {a b : Nat} (h : b ≤ a) (ha : a < 18446744073709551616) : u64Sub a b = a - b := by
   unfold u64Sub wrapU64 two64; omega
 
+/-! ### outcome cases of the checked primitives -/
+
+theorem chkDec_cases (x : Dec) : chkDec x = .ok x ∨ chkDec x = .error .overflow := by
+  unfold chkDec; split
+  · exact Or.inl rfl
+  · exact Or.inr rfl
+theorem chkInt_cases (x : Int) : chkInt x = .ok x ∨ chkInt x = .error .overflow := by
+  unfold chkInt; split
+  · exact Or.inl rfl
+  · exact Or.inr rfl
+theorem decQuo_cases (a b : Dec) :
+    (b = 0 ∧ decQuo a b = .error .panic) ∨
+    (b ≠ 0 ∧ (decQuo a b = .ok (Dec.quo a b) ∨ decQuo a b = .error .overflow)) := by
+  unfold decQuo
+  by_cases h : b = 0
+  · exact Or.inl ⟨h, by rw [if_pos h]⟩
+  · exact Or.inr ⟨h, by rw [if_neg h]; exact chkDec_cases _⟩
+
 /-! ### loops -/
 
 /-- a loop whose body appends one element computed from the loop variable builds `map` -/
